@@ -2,7 +2,7 @@
 
 proof  : coq/Props/C08.v  (ops_total / oper_total: every assignment and binary operator on ALL operands is a
          value or an error; call-depth and restart bounds over Model/Exec.v with the limits and guard sites
-         regenerated from the Go sources (Gen/EvalConst.v); include expansion total over Model/Include.v)
+         regenerated from the Go sources (Gen/EvalConst.v); include expansion total over Model/EvalInclude.v)
 tie    : T  Gen/EvalConst.v  (maxCallStackExceedCount, MaxVarnishRestarts, guard sites in subroutine.go,
             statement.go, interpreter.go, include.go)
          C  real interpreter in watchdog-supervised worker processes (hang 3 s, memory limit):
@@ -10,7 +10,12 @@ tie    : T  Gen/EvalConst.v  (maxCallStackExceedCount, MaxVarnishRestarts, guard
             (ii)  implrun builtin  : every built-in of __generator__/builtin.yml x signatures x boundary arguments
             (iii) implrun simrun   : whole requests (1-3 per interpreter): recursive / mutually recursive
                   subroutines, call chains around the depth limit, restart / return(restart) in every scope,
-                  self / mutual includes - outcome compared with Model/Exec.v serve, Model/Include.v resolve
+                  self / mutual includes - outcome compared with Model/Exec.v serve, Model/EvalInclude.v resolve;
+                  plus the whole finite product {restart; return(restart); error; recursive call (plain,
+                  functional by call, functional inside an expression); self include} x {22 syntactic positions:
+                  top level, block, if/else/else-if/nested arms, switch case/default/fallthrough, user subs (1-2
+                  levels), FUNCTIONAL subs reached by call f(); / inside set / inside a condition / through other
+                  subs} x {9 scopes}, every tier
 oracle : on the implementation alone: every outcome is a value or a runtime error - a Go panic, a fatal error
          (stack overflow, out of memory) or no progress for 3 s is a violation with a replay.
 """
@@ -97,6 +102,14 @@ def run_sims(ctx, model, impl, thorough):
             add(kind, payload, rq, simgen.inc_modules(*payload), simgen.inc_model(payload[0], payload[1]))
         else:
             add(kind, payload, rq, [("main", payload)], "sim ((error))")
+    # (D) every bound-relevant statement x every syntactic position x every scope: the whole finite product, every tier
+    n_pos = 0
+    for stmt, pos, scope in simgen.position_product():
+        mods, rq = simgen.position_program(stmt, pos, scope)
+        cases.append(("pos", (stmt, pos, scope, dict(mods)), rq))
+        ireq.append(_req(mods, rq))
+        mreq.append("sim ((error))")
+        n_pos += 1
     n = 20000 if thorough else 2500
     for _ in range(n):
         k = rng.random()
@@ -110,16 +123,24 @@ def run_sims(ctx, model, impl, thorough):
         else:
             p = simgen.gen_scope_program(rng, stats)
             add("scope", p, rq, [("main", p)], "sim ((error))")
-    irep = V.run_batch(impl + ["simrun"], ireq, hang_s=3, mem_kb=4_000_000, max_failures=12)
+    irep = V.run_batch(impl + ["simrun"], ireq, hang_s=3, mem_kb=4_000_000, max_failures=16)
     mrep = V.run_batch([model], mreq, hang_s=60)
     counts = {}
     requests = 0
+    pos_reached, pos_restarted = {}, set()
     for (kind, payload, rq), ir, mr in zip(cases, irep, mrep):
-        src = payload if kind == "scope" else (simgen.skel_vcl(payload) if kind == "skel" else dict(simgen.inc_modules(*payload)))
+        where = ""
+        if kind == "pos":
+            src = payload[3]
+            where = " [%s at position %s in vcl_%s]" % payload[:3]
+        else:
+            src = payload if kind == "scope" else (simgen.skel_vcl(payload) if kind == "skel" else dict(simgen.inc_modules(*payload)))
         replay = {"kind": kind, "program": src, "requests": rq, "impl": ir, "model": mr}
+        if kind == "pos":
+            replay.update({"statement": payload[0], "position": payload[1], "scope": payload[2]})
         if _bad(ir):
             counts[(kind, "crash/hang")] = counts.get((kind, "crash/hang"), 0) + 1
-            ctx.violation("simulation does not end in a response or a runtime error (%s): %s" % (kind, (ir or "no reply")[:160]), replay)
+            ctx.violation("simulation does not end in a response or a runtime error (%s)%s: %s" % (kind, where, (ir or "no reply")[:160]), replay)
             continue
         words = ir.split()
         requests += len(words)
@@ -127,7 +148,13 @@ def run_sims(ctx, model, impl, thorough):
         for (method, _), w in zip(rq, words):
             st, rs, er, cl, lg = w.split(":")
             if int(rs) > 3:     # the documented Fastly limit, independent of the constant in the sources
-                ctx.violation("a request was restarted %s times: restarts are limited to three" % rs, replay)
+                ctx.violation("a request was restarted %s times: restarts are limited to three%s" % (rs, where), replay)
+            if kind == "pos":
+                pos_reached[payload[:3]] = pos_reached.get(payload[:3], False) or int(lg) > 0
+                if payload[0] in ("restart", "return-restart") and int(rs) == 3:
+                    pos_restarted.add(payload[:3])
+                counts[(kind, "error" if er == "1" else "response")] = counts.get((kind, "error" if er == "1" else "response"), 0) + 1
+                continue
             if kind == "scope" or method == "FASTLYPURGE":
                 key = (kind, "error" if er == "1" else "response")
             elif kind == "skel":
@@ -140,11 +167,17 @@ def run_sims(ctx, model, impl, thorough):
                 ok = (exp[:1] == ["err"] and er == "1") or (exp[:1] == ["ok"] and er == "0" and (root or exp[1] == lg))
                 key = (kind, "agree" if ok else "differ")
                 if not ok:
-                    ctx.violation("include expansion differs from Model/Include.v: interpreter %s, model %s" % (w, mr), replay)
+                    ctx.violation("include expansion differs from Model/EvalInclude.v: interpreter %s, model %s" % (w, mr), replay)
             counts[key] = counts.get(key, 0) + 1
     ctx.coverage["simulations"] = {"programs": len(cases), "requests": requests,
                                    "outcomes": {"%s %s" % k: v for k, v in sorted(counts.items())},
-                                   "generator": dict(sorted(stats.items()))}
+                                   "generator": dict(sorted(stats.items())),
+                                   "position_product": {
+                                       "statements": sorted(simgen.POS_STATEMENTS), "positions": sorted(simgen.POSITIONS), "scopes": simgen.SCOPES,
+                                       "programs": n_pos, "exhaustive": True,
+                                       "position_reached_by_a_request": sum(1 for v in pos_reached.values() if v),
+                                       "not_reached": sorted("%s/%s/%s" % k for k, v in pos_reached.items() if not v)[:40],
+                                       "restart_statements_that_restarted_three_times": len(pos_restarted)}}
     ctx.samples += [{"program": (cases[i][1] if cases[i][0] == "scope" else str(cases[i][1]))[:300], "requests": cases[i][2], "interpreter": irep[i]}
                     for i in (len(cases) - 1, len(cases) // 2)]
     return requests, len(set(ireq))
@@ -209,7 +242,7 @@ def run(ctx):
         "len(i.callStack)>maxCallStackExceedCount, i.ctx.Restarts+1>limitations.MaxVarnishRestarts, range over `including`)",
         "harness/cmd/implrun eval_*.go; workers supervised by vcommon.run_batch (3 s without progress = hang, ulimit -v 4 GB)",
         "modelled not verified: Model/Assign.v, Oper.v (crash points = Go integer / and % by zero, shifts by a negative count), "
-        "Model/Exec.v (control skeleton of subroutine.go / statement.go / interpreter.go restart), Model/Include.v (include.go)",
+        "Model/Exec.v (control skeleton of subroutine.go / statement.go / interpreter.go restart), Model/EvalInclude.v (include.go)",
         "NOT modelled, exercised only through the implementation: built-in function bodies, the request flow outside vcl_recv "
         "(hash/hit/miss/pass/fetch/error/deliver/log), net/http, PCRE",
     ]
